@@ -149,6 +149,9 @@ class World:
             notes.append('tags differ between clients')
       req = list(ids1)
       rng.shuffle(req)
+      if req:     # a request may name a client more than once (sampling with replacement): one entry per occurrence
+        req = req + [req[0]] + [req[len(req) // 2]]
+        req.insert(1, req[0])
       got = list(fd.get_clients(req))
       if [c for c, _ in got] != req:
         paths = False
